@@ -1,0 +1,36 @@
+//go:build verif
+
+package clightning
+
+import (
+	"context"
+
+	"github.com/elementsproject/glightning/glightning"
+)
+
+// This file is compiled only with the build tag `verif`. It gives the
+// verification harness in /verif access to the unexported direct-route builder
+// and a client that talks to a (fake) lightningd socket without the plugin
+// start-up sequence.
+
+// VerifBuildDirectClaimRoute calls the unexported route builder unchanged.
+func VerifBuildDirectClaimRoute(
+	bolt11 *glightning.DecodedBolt11,
+	scid string,
+	maxTotalCLTVDelta uint32,
+) ([]glightning.RouteHop, error) {
+	return buildDirectClaimRoute(bolt11, scid, maxTotalCLTVDelta)
+}
+
+// VerifNewClient returns a ClightningClient whose lightningd connection is
+// dialled to lightningDir/rpcFile. Only the Lightning RPC paths are usable.
+func VerifNewClient(rpcFile, lightningDir string, timeoutSecs uint) (*ClightningClient, error) {
+	cl := &ClightningClient{ctx: context.Background()}
+	cl.glightning = glightning.NewLightning()
+	cl.glightning.SetTimeout(timeoutSecs)
+	cl.hexToIdMap = make(map[string]string)
+	if err := cl.glightning.StartUp(rpcFile, lightningDir); err != nil {
+		return nil, err
+	}
+	return cl, nil
+}
